@@ -60,5 +60,13 @@ def schema_attr(lib, I, o, cls, name, fr, node):
     if name in ("load", "dump"):
         from . import mmalgo
         fn = mmalgo.schema_load if name == "load" else mmalgo.schema_dump
-        return Builtin(f"Schema.{name}", lambda I2, a, k: fn(lib, I2, o, cls, a, k, node))
+
+        def call(I2, a, k):
+            # modular use: a contract proved on the harness `schema.load(data)` for this schema class stands for the call
+            h = I2.w.functions.get(f"harness.{cls.name}_{name}")
+            ct = I2.w.contracts.get(f"harness.{cls.name}_{name}") if h is not None else None
+            if ct is not None and I2.use_contracts and I2.top is not h and (I2.contract_filter is None or I2.contract_filter(h.qualname)):
+                return I2.w.spec.apply_contract(I2, ct, h, [o] + list(a), k, None, node)
+            return fn(lib, I2, o, cls, a, k, node)
+        return Builtin(f"Schema.{name}", call)
     return MISSING
